@@ -20,6 +20,9 @@
                              prefix    w        "^w"       position 1 matches w
                              suffix    w        "w$"       the last Len(w) bytes match w
                              alt       w w2     "w|w2"     contains w or contains w2
+                             ncalt     w w2     "(?:w|w2)" the same inside a non-capturing group     (payload only)
+                             flagged   w        "(?s)w"    contains w (behind a flag group)          (payload only)
+                             named     w        "(?P<n>w)" contains w (inside a named group)         (payload only)
                            classes that also match the EMPTY word (they hold for every id with 4 bytes, but - like every
                            apid/ctid criterion - never for a message without extended header, where there is no id):
                              any                ".*"       always
@@ -70,6 +73,8 @@ ReHolds(cls, w, w2, x) ==
       [] cls = "prefix"   -> PatAt(w, x, 1)
       [] cls = "suffix"   -> PatAt(w, x, Len(x) - Len(w) + 1)
       [] cls = "alt"      -> ContainsPat(w, x) \/ ContainsPat(w2, x)
+      [] cls = "ncalt"    -> ContainsPat(w, x) \/ ContainsPat(w2, x)      \* "(?:w|w2)"  non-capturing group
+      [] cls \in {"flagged", "named"} -> ContainsPat(w, x)               \* "(?s)w" (flag group), "(?P<n>w)" (named group)
       [] cls \in {"any", "opt", "altempty"} -> TRUE
       [] cls = "empty"    -> Len(x) = 0
       [] cls = "nostar"   -> \A i \in 1..Len(x) : x[i] # w[1]
@@ -89,6 +94,10 @@ Syn(c) == CASE c.k = "none"     -> <<>>
             [] c.cls = "prefix"   -> <<Caret>> \o c.w
             [] c.cls = "suffix"   -> c.w \o <<Dollar>>
             [] c.cls = "alt"      -> c.w \o <<Pipe>> \o c.w2
+            \* payload regexes that START with "(?" (a group modifier, not the ignore-case flag): 240 '(' 241 ')' 258 ':' 260 '<' 262 '>'
+            [] c.cls = "ncalt"    -> <<240, QMark, 258>> \o c.w \o <<Pipe>> \o c.w2 \o <<241>>
+            [] c.cls = "flagged"  -> <<240, QMark, 19, 241>> \o c.w
+            [] c.cls = "named"    -> <<240, QMark, 116, 260, 14, 262>> \o c.w \o <<241>>
             [] c.cls = "any"      -> <<Dot, Star>>
             [] c.cls = "opt"      -> c.w \o <<QMark>>
             [] c.cls = "altempty" -> c.w \o <<Pipe>>
